@@ -40,6 +40,10 @@ CHECKS = {
    "Every connection runs on a live simulated socket against the real server classes: all 256 first-byte values are swept with and without a TLS context, as one segment and with the first byte alone; seeded histories of 8-24 connections per server configuration (shipped protocol list read from the repository's conf, seeded permutations and sub-lists) mix canonical request shapes and near-misses of every protocol, random byte lines and HTTP header-block variants, each repeated under different segmentation/delay plans. Observed from outside: whether the TLS context wrapped the socket, the request line the handler read after the sniff, the class returned by getProtocol. Oracles: TLS iff 0x16, sniff consumes nothing, determinism across segmentation and history, secure flag = TLS-ness, totality with the shipped list, first documented-shape match wins (small independent shape model).",
    "Trusts the simulator and the 40-line shape model (only applied to canonical shapes and clear near-misses). TLS is a stub.",
    "deterministic simulation: live simulated sockets with seeded segmentation/delays and MSG_PEEK, exhaustive first-byte sweep, connection histories, observation of wrap_socket and getProtocol from outside"),
+ "C01": ("exploration", "3.1",
+   "The world outside the document root is a simulated, varied component: each run serves 30-80 requests from a traversal grammar (every protocol syntax and TLS variant x base object incl. ZIP with symlink members, mbox, script, PYG and files whose names contain backslashes or '..' x climbing token before/inside/after x 1-3 percent-encoding layers in five styles x virtual-argument, ZIP-member, URL: and type-rewrite forms) twice, in two worlds that are identical inside the root and differ outside (decoy secrets, a decoy ZIP/PYG/script, a string-prefix sibling of the root; present, missing, or replaced by directories) and under two different working directories, with the shipped and the full handler list and both server types. Checked: seam monitor (audit events + interposed open/listdir: nothing outside the root, no '..' component, no relative path, programs executed live in the root), byte-identical responses and logs across the world pair, not-found for every selector whose once-decoded, slash-normalised form contains a climbing token. The request dimension is sampled input generation; the environment and the I/O seam are what is simulated.",
+   "Trusts sys.addaudithook coverage and the interposed os/builtins entry points; a bare stat() of root+selector before the filter is counted but not flagged (it opens, reads, lists and runs nothing; revelation is decided by the world-pair comparison).",
+   "deterministic simulation of the environment: world-pair non-interference under varied outside-of-root state and cwd + I/O-seam monitor (audit hook and interposed file-system entry points), seeded traversal grammar"),
 }
 
 NA = {
@@ -55,7 +59,6 @@ NA = {
  "C18": "escaping / context-restoration over (template, context); no schedule, clock or fault to simulate",
 }
 PENDING = {
- "C01": "claimed in DESIGN.md; check not built yet in this revision",
 }
 
 def main():
